@@ -100,7 +100,7 @@ def model_correspondence(ctx, n):
         pairs.append({'rules': text, 'data': json.dumps(doc)})
     # every case also runs the proven termination test on the AST the implementation parsed: `Some w` = the program is
     # stratified and fuel w is enough for every document (TermProps.terminates_within_sound), `None` = not certified
-    out, errs = corr.run(pairs, ctx.wd, 'c08corr', loader='cli', expr='({check}, terminates_within p{i} 12)',
+    out, errs = corr.run(pairs, ctx.wd, 'c08corr', loader='cli', expr='({check}, pwf_prog p{i}, terminates_within p{i} 12)',
                          header='From GV.Model Require Import Check Strat.\n')
     if errs:
         raise ToolingError('model evaluation failed: %r' % (errs[:1],))
@@ -109,11 +109,17 @@ def model_correspondence(ctx, n):
     for o, p in zip(out, pairs):
         cert = None
         if o['kind'] == 'compared':
-            m = re.match(r'\((.*), (Some (\d+)%nat|None)\)$', o['verdict'])
+            m = re.match(r'\((.*), (true|false), (Some (\d+)%nat|None)\)$', o['verdict'])
             if not m:
                 raise ToolingError('unexpected case output %r' % o['verdict'][:200])
             o['verdict'] = m.group(1)
-            cert = int(m.group(3)) if m.group(3) else None
+            cert = int(m.group(4)) if m.group(4) else None
+            strat['parser_shaped'] = strat.get('parser_shaped', 0) + int(m.group(2) == 'true')
+            if m.group(2) != 'true':
+                # the hypothesis of C08_no_panic_site_is_reached is a claim about the parser: an accepted rules file whose AST is
+                # not parser-shaped takes the theorem away (and the model then says which panic site is reached, if any)
+                ctx.failing('the parser accepted a rules file whose AST is not parser-shaped (Strat.pwf_prog = false): the premise of C08_no_panic_site_is_reached does not hold of it',
+                            {'class': 'parser-shape', 'rules': p['rules'], 'data': p['data'], 'model': o['verdict']}, found=('Panic' in o['verdict'] or 'panic' in str(o.get('impl'))))
             o['certified'] = cert
             pyc = reference_cycle(o['ast'])
             if cert is not None:
@@ -427,6 +433,25 @@ def fuzz(ctx, n):
                         pass
                 if evaluated:
                     ctx.failing('a rules file the grammar rejects was nevertheless evaluated', dict(info, stdout=so[:400].decode('utf-8', 'replace')), found=True)
+    # the premise of C08_no_panic_site_is_reached on what the parser really accepts: every mutated rules text that still parses
+    # must give a parser-shaped AST (Strat.pwf_prog, evaluated by Coq)
+    pcases = []
+    for k, a in enumerate(ares):
+        rr = a.get('res')
+        if rr and rr[0] == 'Ok':
+            try:
+                pcases.append((k, 'Definition p%d : rules_file := %s.' % (k, ct.rules_file(rr[1])), 'pwf_prog p%d' % k))
+            except Exception:
+                continue
+    if pcases:
+        pv, perrs = model.eval_cases(pcases, ctx.wd, 'c08pwf', header='From GV.Model Require Import Check Strat.\n')
+        if perrs:
+            raise ToolingError('model evaluation failed: %r' % (perrs[:1],))
+        bad = [k for k, _, _ in pcases if pv.get(k) != 'true']
+        for k in bad:
+            ctx.failing('the parser accepted a (mutated) rules file whose AST is not parser-shaped (Strat.pwf_prog = %s)' % pv.get(k),
+                        {'class': 'parser-shape', 'rules': texts[k]['rules'], 'data': texts[k]['data'][:500]}, found=False)
+        ctx.coverage['mutated_rules_texts_parser_shaped'] = len(pcases) - len(bad)
     for t, r in zip(texts, lres):
         if 'panic' in r or 'abort' in r or 'timeout' in r:
             classify_crash(ctx, 'run_checks crashes: %s' % str(r)[:200], {'mutated': t['kind'], 'command': 'run_checks', 'rules': t['rules'], 'data': t['data'][:2000]}, t['rules'])
